@@ -45,6 +45,14 @@ def mbox_bytes(n, tag="m"):
                 "MIME-Version: 1.0\nContent-Type: text/plain; charset=utf-8\n"
                 "Content-Transfer-Encoding: 8bit\n\nGr\u00fc\u00dfe aus K\u00f6ln \u2013 body of %s message 2.\n\n" % (tag, tag))
             continue
+        if i == 3:
+            # RFC 2047 encoded words, one of them in a character set nobody has a codec for
+            out.append(
+                "From user3@example.org Sat Sep  8 03:00:00 2001\n"
+                "From: =?utf-8?B?w5xzZXI=?= <user3@example.org>\nTo: list@example.org\n"
+                "Subject: =?x-user-defined-charset?Q?Special_offer?= =?iso-8859-1?Q?caf=E9?= %s message 3\n\n"
+                "Body of %s message 3.\n\n" % (tag, tag))
+            continue
         out.append(
             "From user%d@example.org Sat Sep  8 0%d:00:00 2001\n"
             "From: user%d@example.org\nTo: list@example.org\n"
